@@ -34,6 +34,7 @@ def run(tier, seed):
     v.add_tlc(rt)
     v.add_report({"evaluations": summ["events"], "nontrivial": summ["nontrivial"], "samples": summ["samples"], "mismatches": mism,
                   "counters": summ["counters"]}, "M3:Trace_C20", traces=1)
+    vlib.scale_stage(v, wd, "C20")
     return v.finish("model_checking", "rule sets", exhaustive=False)
 
 
